@@ -19,6 +19,7 @@ import (
 	"bufio"
 	"fmt"
 	"strings"
+	"sync"
 
 	"github.com/AdguardTeam/urlfilter"
 	"github.com/AdguardTeam/urlfilter/filterlist"
@@ -99,6 +100,26 @@ func c06Pool(pat string, dns bool) (texts []string) {
 
 	return texts
 }
+
+// c06PoolOver is the union of the pools over several patterns: the verdict and the selection must not read the
+// pattern, so rules of one class and modifier set come over nested prefixes (`||e.org^` / `||e.org/` / `||e.org/ad`),
+// over unrelated patterns (`/ad/`, a regexp rule without a shortcut: another lookup table) and over equal patterns.
+func c06PoolOver(dns bool, pats ...string) (texts []string) {
+	for _, p := range pats {
+		texts = append(texts, c06Pool(p, dns)...)
+	}
+
+	return texts
+}
+
+var (
+	// every one of them matches the request http://e.org/ad.js, the referrer http://site.com/page, the host name e.org
+	c06WebPats = []string{"||e.org^", "||e.org/", "||e.org/ad", "/ad/"}
+	c06SrcPats = []string{"||site.com^", "||site.com/", "||site.com/page"}
+	c06DNSPats = []string{"||e.org^", "||e.org", "e.org", `/e\.org/`}
+	// referrer patterns covering the referrer's path, in lower and in mixed case
+	c06LandPats = []string{"||site.com/landing", "||Site.com/Landing"}
+)
 
 func c06Parse(ts []string) (out []*rules.NetworkRule) {
 	for _, t := range ts {
@@ -196,10 +217,46 @@ func c06Multiset(r *rng, pool []string, maxN int) (ts []string) {
 
 			continue
 		}
+		if len(ts) > 0 && r.chance(1, 5) {
+			// an earlier rule over another pattern of its family (nested prefix, unrelated, …): same class, same modifiers
+			ts = append(ts, c06SwapPattern(r, pick(r, ts)))
+
+			continue
+		}
 		ts = append(ts, c06Pick(r, pool))
 	}
 
 	return ts
+}
+
+// c06PatFamilies: sets of patterns that all match the request of their scenarios.
+var c06PatFamilies = [][]string{c06WebPats, c06SrcPats, c06DNSPats, c06LandPats}
+
+// c06SwapPattern returns rule text t over another pattern of the family its pattern belongs to (t itself if the
+// pattern is unknown or the result is not a valid rule).
+func c06SwapPattern(r *rng, t string) string {
+	head, body := "", t
+	if strings.HasPrefix(body, "@@") {
+		head, body = "@@", body[2:]
+	}
+	pat, rest := body, ""
+	if i := strings.IndexByte(body, '$'); i >= 0 {
+		pat, rest = body[:i], body[i:]
+	}
+	for _, fam := range c06PatFamilies {
+		for _, p := range fam {
+			if p == pat {
+				t2 := head + pick(r, fam) + rest
+				if _, err := rules.NewNetworkRule(t2, 1); err == nil {
+					return t2
+				}
+
+				return t
+			}
+		}
+	}
+
+	return t
 }
 
 // c06Pick draws from the pool with a bias against the features that make a
@@ -222,8 +279,8 @@ func c06Pick(r *rng, pool []string) string {
 }
 
 func genC06Result(r *rng, n int, w *bufio.Writer) {
-	pool := c06Pool("||e.org^", false)
-	spool := c06Pool("||site.com^", false)
+	pool := c06PoolOver(false, c06WebPats...)
+	spool := c06PoolOver(false, c06SrcPats...)
 	// D5 replay first
 	b := c06Parse([]string{"||ads.com^$domain=site.com"})
 	gu := c06Parse([]string{"@@||site.com^$genericblock", "@@||site.com^$urlblock"})
@@ -252,7 +309,7 @@ func genC06Result(r *rng, n int, w *bufio.Writer) {
 }
 
 func genC06DNS(r *rng, n int, w *bufio.Writer) {
-	pool := c06Pool("||e.org^", false)
+	pool := c06PoolOver(false, c06WebPats...)
 	c06EmitDNS(w, nil, "direct", nil, false)
 	for i := 0; i < n; i++ {
 		rs := c06Parse(c06Multiset(r, pool, 6))
@@ -273,14 +330,33 @@ func genC06DNS(r *rng, n int, w *bufio.Writer) {
 	}
 }
 
-// c06Lists splits texts into 1..3 rule lists at random points.
-func c06Lists(r *rng, ts []string) *filterlist.RuleStorage {
+// c06Assign deals the texts over 1..3 rule lists (the order inside a list is the order of ts).
+func c06Assign(r *rng, ts []string) [][]string {
 	k := 1 + r.n(3)
 	parts := make([][]string, k)
 	for _, t := range ts {
 		j := r.n(k)
 		parts[j] = append(parts[j], t)
 	}
+
+	return parts
+}
+
+// c06Mirror is the exact reverse of a storage order: the lists in reverse order, each list reversed.
+func c06Mirror(parts [][]string) [][]string {
+	out := make([][]string, 0, len(parts))
+	for i := len(parts) - 1; i >= 0; i-- {
+		p := make([]string, 0, len(parts[i]))
+		for j := len(parts[i]) - 1; j >= 0; j-- {
+			p = append(p, parts[i][j])
+		}
+		out = append(out, p)
+	}
+
+	return out
+}
+
+func c06Storage(parts [][]string) *filterlist.RuleStorage {
 	var lists []filterlist.RuleList
 	for i, p := range parts {
 		lists = append(lists, &filterlist.StringRuleList{ID: i + 1, RulesText: strings.Join(p, "\n") + "\n"})
@@ -293,17 +369,216 @@ func c06Lists(r *rng, ts []string) *filterlist.RuleStorage {
 	return s
 }
 
-// genC06Engine: the same multisets through the real engines, in several
-// permutations and splits into lists.  Each engine run yields a c06.result /
-// c06.dnsbasic line (rules = what MatchAll returned, answer = the engine's
-// verdict) and the permutations must agree (assert).
-func genC06Engine(r *rng, n int, w *bufio.Writer) {
-	pool := c06Pool("||e.org^", false)
-	spool := c06Pool("||site.com^", false)
-	dpool := c06Pool("||e.org^", true)
-	// rules with document-level modifiers apply to document requests only and would not match the
-	// script request below: keep them rare on the request side
-	var rpool []string
+// c06Linear parses every text of the lists (storage order) and keeps the rules accepted by keep: the reference
+// candidate set of a request, obtained without any lookup table.
+func c06Linear(parts [][]string, keep func(f *rules.NetworkRule) bool) (out []*rules.NetworkRule) {
+	for i, p := range parts {
+		for _, t := range p {
+			// as the list scanner does: a bare host name is a hosts-syntax line, not a network rule
+			x, err := rules.NewRule(t, i+1)
+			if f, isNet := x.(*rules.NetworkRule); err == nil && isNet && keep(f) {
+				out = append(out, f)
+			}
+		}
+	}
+
+	return out
+}
+
+func c06PartsNote(parts [][]string) string {
+	var ls []string
+	for _, p := range parts {
+		ls = append(ls, strings.Join(p, "  ;  "))
+	}
+
+	return strings.Join(ls, "  ‖  ")
+}
+
+func c06PartsWire(parts [][]string) string {
+	var ls []string
+	for _, p := range parts {
+		ls = append(ls, wstrs(p))
+	}
+
+	return wlist(ls...)
+}
+
+// c06Scenario: rule texts plus the request they are queried with.
+type c06Scenario struct {
+	ts     []string
+	web    bool
+	url    string // web: request URL
+	src    string // web: referrer URL
+	host   string // dns: host name
+	client string // client name of the request ("" = none)
+	note   string
+	// mirror: the second storage order is the exact reverse of the first one (every pair of rules is met in both orders)
+	mirror bool
+}
+
+func (sc *c06Scenario) webReq() *rules.Request {
+	q := rules.NewRequest(sc.url, sc.src, rules.TypeScript)
+	q.ClientName = sc.client
+
+	return q
+}
+
+func (sc *c06Scenario) dnsReq() *urlfilter.DNSRequest {
+	return &urlfilter.DNSRequest{Hostname: sc.host, DNSType: 1, ClientName: sc.client}
+}
+
+func c06Tied(a, b *rules.NetworkRule) bool {
+	if a == nil || b == nil {
+		return a == nil && b == nil
+	}
+
+	return a.Whitelist == b.Whitelist && !a.IsHigherPriority(b) && !b.IsHigherPriority(a)
+}
+
+func c06Name(f *rules.NetworkRule) string {
+	if f == nil {
+		return "none"
+	}
+
+	return f.RuleText
+}
+
+// c06RunScenario runs the scenario through the real engines in `perms` storage orders / splits into lists.
+//
+// Per order: the verdict of the engine against (i) the rules the engine's own MatchAll returned and (ii) ALL rules of
+// the lists that match the request, found by a linear scan without lookup tables (a rule lost by a table shows here);
+// then the orders must agree.  With sel (the C07 view) also: the direct selection function over all matching rules
+// (c06.pick / c06.dnspick against the model), and the rule selected by the engine must be tied with it and with the
+// rule selected for every other order.
+func c06RunScenario(r *rng, w *bufio.Writer, sc c06Scenario, perms int, sel bool) {
+	var classes []string
+	var picked []*rules.NetworkRule
+	var parts [][]string
+	ts := append([]string(nil), sc.ts...)
+	selOK, selWhy := true, ""
+	selFail := func(why string) {
+		if selOK {
+			selOK, selWhy = false, why
+		}
+	}
+	for p := 0; p < perms; p++ {
+		if p == 1 && sc.mirror {
+			parts = c06Mirror(parts)
+		} else {
+			if p > 0 {
+				shuffle(r, ts)
+			}
+			parts = c06Assign(r, ts)
+		}
+		s := c06Storage(parts)
+		lists := c06PartsNote(parts)
+		if sc.web {
+			e := urlfilter.NewEngine(s)
+			ne := urlfilter.NewNetworkEngine(s)
+			q := sc.webReq()
+			srcQ := rules.NewRequest(q.SourceURL, "", rules.TypeDocument)
+			rs := ne.MatchAll(q)
+			src := ne.MatchAll(srcQ)
+			lin := c06Linear(parts, func(f *rules.NetworkRule) bool { return f.Match(q) })
+			linSrc := c06Linear(parts, func(f *rules.NetworkRule) bool { return f.Match(srcQ) })
+			var got *rules.NetworkRule
+			cls := guardStr(func() string {
+				got = e.MatchRequest(sc.webReq()).GetBasicResult()
+
+				return c08Class(got)
+			})
+			if cls != "PANIC" {
+				fmt.Fprintf(w, "c06.result %s %s = %s ## Engine.MatchRequest(url=%q, referrer=%q, script) over lists [%s]: rules [%s] source [%s]\n", c06Enc(rs), c06Enc(src), cls,
+					sc.url, sc.src, lists, c06Texts(rs), c06Texts(src))
+				fmt.Fprintf(w, "c06.result %s %s = %s ## Engine.MatchRequest(url=%q, referrer=%q, script) client=%q over lists [%s] against ALL matching rules of the lists (linear scan): rules [%s] source [%s]%s\n",
+					c06Enc(lin), c06Enc(linSrc), cls, sc.url, sc.src, sc.client, lists, c06Texts(lin), c06Texts(linSrc), sc.note)
+			} else {
+				fmt.Fprintf(w, "assert c06.enginepanic %s %s %s = F ## Engine.MatchRequest(url=%q, referrer=%q) panicked over [%s]\n", c06PartsWire(parts), wb(sc.url), wb(sc.src), sc.url, sc.src, lists)
+			}
+			// NetworkEngine.Match: the verdict over the matching rules alone (no referrer rules)
+			var ngot *rules.NetworkRule
+			ncls := guardStr(func() string {
+				nr, ok := ne.Match(sc.webReq())
+				if ok != (nr != nil) {
+					return "BADFLAG"
+				}
+				ngot = nr
+
+				return c08Class(nr)
+			})
+			fmt.Fprintf(w, "c06.result %s () = %s ## NetworkEngine.Match(url=%q, referrer=%q, script) over lists [%s]: rules [%s]\n", c06Enc(rs), ncls, sc.url, sc.src, lists, c06Texts(rs))
+			fmt.Fprintf(w, "c06.result %s () = %s ## NetworkEngine.Match(url=%q, referrer=%q, script) client=%q over lists [%s] against ALL matching rules of the lists (linear scan): rules [%s]%s\n",
+				c06Enc(lin), ncls, sc.url, sc.src, sc.client, lists, c06Texts(lin), sc.note)
+			classes = append(classes, cls)
+			picked = append(picked, got)
+			if sel && cls != "PANIC" {
+				c06EmitWeb(w, lin, linSrc, "direct, all matching rules of lists ["+lists+"]", nil, false)
+				ref := rules.NewMatchingResult(append([]*rules.NetworkRule(nil), lin...), append([]*rules.NetworkRule(nil), linSrc...)).GetBasicResult()
+				if !c06Tied(got, ref) {
+					selFail(fmt.Sprintf("order [%s]: Engine.MatchRequest selected %s, the selection over all matching rules is %s (not tied)", lists, c06Name(got), c06Name(ref)))
+				}
+				nref := rules.NewMatchingResult(append([]*rules.NetworkRule(nil), lin...), nil).GetBasicResult()
+				if !c06Tied(ngot, nref) {
+					selFail(fmt.Sprintf("order [%s]: NetworkEngine.Match selected %s, the selection over all matching rules is %s (not tied)", lists, c06Name(ngot), c06Name(nref)))
+				}
+			}
+		} else {
+			e := urlfilter.NewDNSEngine(s)
+			var res *urlfilter.DNSResult
+			cls := guardStr(func() string {
+				res, _ = e.MatchRequest(sc.dnsReq())
+
+				return c08Class(res.NetworkRule)
+			})
+			if cls == "PANIC" {
+				fmt.Fprintf(w, "assert c06.enginepanic %s = F ## DNSEngine.MatchRequest panicked over [%s]\n", c06PartsWire(parts), lists)
+				classes = append(classes, cls)
+				picked = append(picked, nil)
+
+				continue
+			}
+			q := hostnameRequest(sc.dnsReq())
+			lin := c06Linear(parts, func(f *rules.NetworkRule) bool { return f.IsHostLevelNetworkRule() && f.Match(q) })
+			c06EmitDNS(w, res.NetworkRules, "DNSEngine.MatchRequest", res.NetworkRule, true)
+			fmt.Fprintf(w, "c06.dnsbasic %s = %s ## DNSEngine.MatchRequest %s client=%q over lists [%s] against ALL matching rules of the lists (linear scan): [%s]%s\n",
+				c06Enc(lin), cls, sc.host, sc.client, lists, c06Texts(lin), sc.note)
+			classes = append(classes, cls)
+			picked = append(picked, res.NetworkRule)
+			if sel {
+				c06EmitDNS(w, lin, "direct, all matching rules of lists ["+lists+"]", nil, false)
+				ref := rules.GetDNSBasicRule(append([]*rules.NetworkRule(nil), lin...))
+				if !c06Tied(res.NetworkRule, ref) {
+					selFail(fmt.Sprintf("order [%s]: DNSEngine.MatchRequest selected %s, the selection over all matching rules is %s (not tied)", lists, c06Name(res.NetworkRule), c06Name(ref)))
+				}
+			}
+		}
+	}
+	ok := true
+	for _, c := range classes {
+		if c != classes[0] {
+			ok = false
+		}
+	}
+	name, what := "c06.engineperm", fmt.Sprintf("Engine.MatchRequest(url=%q, referrer=%q)", sc.url, sc.src)
+	if !sc.web {
+		name, what = "c06.dnsengineperm", "DNSEngine"
+	}
+	fmt.Fprintf(w, "assert %s %s %s = %s ## %s classes of %d permutations/splits %v: [%s]%s\n", name, wstrs(ts), wb(sc.url+sc.host+"|"+sc.src+"|"+sc.client), wbool(ok), what, perms, classes,
+		strings.Join(ts, "  ;  "), sc.note)
+	if sel {
+		for i := range picked {
+			if !c06Tied(picked[0], picked[i]) {
+				selFail(fmt.Sprintf("the selected rule depends on the order of the lists: %s vs %s (not tied)", c06Name(picked[0]), c06Name(picked[i])))
+			}
+		}
+		fmt.Fprintf(w, "assert c07.engsel %s %s = %s ## %s: the rule selected for every storage order is tied with the selection over ALL matching rules and with the other orders: [%s]%s %s\n",
+			wstrs(ts), wb(sc.url+sc.host+"|"+sc.src+"|"+sc.client), wbool(selOK), what, strings.Join(ts, "  ;  "), sc.note, selWhy)
+	}
+}
+
+// c06EnginePools: the pools of the engine scenarios over the patterns pats (request side: document-level rules kept rare,
+// they apply to document requests only and would not match the script request).
+func c06RequestPool(pool []string) (rpool []string) {
 	for _, t := range pool {
 		if !strings.Contains(t, "block") && !strings.Contains(t, "document") && !strings.Contains(t, "elemhide") {
 			rpool = append(rpool, t, t, t)
@@ -311,102 +586,68 @@ func genC06Engine(r *rng, n int, w *bufio.Writer) {
 			rpool = append(rpool, t)
 		}
 	}
-	// referrer-level exceptions whose pattern (hence lookup shortcut) covers the referrer's PATH, as written in
-	// lower and in mixed case; the referrer URL itself comes in mixed case too (host and path): the engine must
-	// find the exception through the lower-cased referrer URL
-	spoolPath := c06Pool("||site.com/landing", false)
-	spoolPathMixed := c06Pool("||Site.com/Landing", false)
-	reqURL, reqSrc := "http://e.org/ad.js", "http://site.com/page"
-	req := func() *rules.Request {
-		return rules.NewRequest(reqURL, reqSrc, rules.TypeScript)
-	}
-	for i := 0; i < n; i++ {
-		reqURL, reqSrc = "http://e.org/ad.js", "http://site.com/page"
+
+	return rpool
+}
+
+// c06StdScenario: multisets over the pools of e.org / site.com.
+func c06StdInit() {
+	c06StdOnce.Do(func() {
+		c06StdR = c06RequestPool(c06PoolOver(false, c06WebPats...))
+		c06StdS = c06PoolOver(false, c06SrcPats...)
+		c06StdD = c06PoolOver(true, c06DNSPats...)
+		// referrer-level exceptions whose pattern (hence lookup shortcut) covers the referrer's PATH, as written in
+		// lower and in mixed case; the referrer URL itself comes in mixed case too (host and path): the engine must
+		// find the exception through the lower-cased referrer URL
+		c06StdSPath = c06Pool(c06LandPats[0], false)
+		c06StdSPathMixed = c06Pool(c06LandPats[1], false)
+	})
+}
+
+func c06StdScenario(r *rng, web bool) c06Scenario {
+	c06StdInit()
+	if web {
+		sc := c06Scenario{web: true, url: "http://e.org/ad.js", src: "http://site.com/page"}
+		sp := c06StdS
 		if r.chance(1, 2) {
-			sp := spool
-			if r.chance(1, 2) {
-				reqURL = pick(r, []string{"http://e.org/ad.js", "http://E.org/Ad.js", "HTTP://E.ORG/AD.JS", "http://e.Org/ad.js"})
-				reqSrc = pick(r, []string{"http://site.com/Landing/page.html", "http://SITE.com/page", "https://Site.Com/Landing/Page.html",
-					"http://site.com/landing/page.html", "http://sitE.com/LANDING", "HTTP://SITE.COM/Page", "http://site.Com/page"})
-				sp = pick(r, [][]string{spool, spoolPath, spoolPathMixed})
-			}
-			ts := append(c06Multiset(r, rpool, 6), c06Multiset(r, sp, 3)...)
-			perms := 1 + r.n(3)
-			var classes []string
-			for p := 0; p < perms; p++ {
-				s := c06Lists(r, ts)
-				e := urlfilter.NewEngine(s)
-				ne := urlfilter.NewNetworkEngine(s)
-				q := req()
-				rs := ne.MatchAll(q)
-				src := ne.MatchAll(rules.NewRequest(q.SourceURL, "", rules.TypeDocument))
-				var got *rules.NetworkRule
-				cls := guardStr(func() string {
-					got = e.MatchRequest(req()).GetBasicResult()
-
-					return c08Class(got)
-				})
-				// the engine holds its own rule objects: map the result to the MatchAll objects by text
-				var mapped *rules.NetworkRule
-				if got != nil {
-					for _, x := range append(append([]*rules.NetworkRule{}, rs...), src...) {
-						if x.RuleText == got.RuleText {
-							mapped = x
-
-							break
-						}
-					}
-				}
-				if cls != "PANIC" {
-					fmt.Fprintf(w, "c06.result %s %s = %s ## Engine.MatchRequest(url=%q, referrer=%q, script) over lists [%s]: rules [%s] source [%s]\n", c06Enc(rs), c06Enc(src), cls,
-						reqURL, reqSrc, strings.Join(ts, "  ;  "), c06Texts(rs), c06Texts(src))
-				} else {
-					fmt.Fprintf(w, "assert c06.enginepanic %s %s %s = F ## Engine.MatchRequest(url=%q, referrer=%q) panicked over [%s]\n", wstrs(ts), wb(reqURL), wb(reqSrc), reqURL, reqSrc, strings.Join(ts, "  ;  "))
-				}
-				_ = mapped
-				// NetworkEngine.Match: the verdict over the matching rules alone (no referrer rules)
-				ncls := guardStr(func() string {
-					nr, ok := ne.Match(req())
-					if ok != (nr != nil) {
-						return "BADFLAG"
-					}
-
-					return c08Class(nr)
-				})
-				fmt.Fprintf(w, "c06.result %s () = %s ## NetworkEngine.Match(url=%q, referrer=%q, script) over lists [%s]: rules [%s]\n", c06Enc(rs), ncls,
-					reqURL, reqSrc, strings.Join(ts, "  ;  "), c06Texts(rs))
-				classes = append(classes, cls)
-				shuffle(r, ts)
-			}
-			ok := true
-			for _, c := range classes {
-				if c != classes[0] {
-					ok = false
-				}
-			}
-			fmt.Fprintf(w, "assert c06.engineperm %s %s %s = %s ## Engine.MatchRequest(url=%q, referrer=%q) classes of %d permutations/splits %v: [%s]\n", wstrs(ts), wb(reqURL), wb(reqSrc), wbool(ok), reqURL, reqSrc, perms, classes, strings.Join(ts, "  ;  "))
-		} else {
-			ts := c06Multiset(r, dpool, 6)
-			perms := 1 + r.n(3)
-			var classes []string
-			for p := 0; p < perms; p++ {
-				s := c06Lists(r, ts)
-				e := urlfilter.NewDNSEngine(s)
-				res, _ := e.MatchRequest(&urlfilter.DNSRequest{Hostname: "e.org", DNSType: 1})
-				c06EmitDNS(w, res.NetworkRules, "DNSEngine.MatchRequest", res.NetworkRule, true)
-				classes = append(classes, c08Class(res.NetworkRule))
-				shuffle(r, ts)
-			}
-			ok := true
-			for _, c := range classes {
-				if c != classes[0] {
-					ok = false
-				}
-			}
-			fmt.Fprintf(w, "assert c06.dnsengineperm %s = %s ## DNSEngine classes of %d permutations/splits %v: [%s]\n", wstrs(ts), wbool(ok), perms, classes, strings.Join(ts, "  ;  "))
+			sc.url = pick(r, []string{"http://e.org/ad.js", "http://E.org/Ad.js", "HTTP://E.ORG/AD.JS", "http://e.Org/ad.js"})
+			sc.src = pick(r, []string{"http://site.com/Landing/page.html", "http://SITE.com/page", "https://Site.Com/Landing/Page.html",
+				"http://site.com/landing/page.html", "http://sitE.com/LANDING", "HTTP://SITE.COM/Page", "http://site.Com/page"})
+			sp = pick(r, [][]string{c06StdS, c06StdSPath, c06StdSPathMixed})
 		}
+		sc.ts = append(c06Multiset(r, c06StdR, 6), c06Multiset(r, sp, 3)...)
+
+		return sc
+	}
+
+	return c06Scenario{host: "e.org", ts: c06Multiset(r, c06StdD, 6)}
+}
+
+var (
+	c06StdOnce                    sync.Once
+	c06StdR, c06StdS, c06StdD     []string
+	c06StdSPath, c06StdSPathMixed []string
+)
+
+// genC06Engine: the multisets through the real engines, in several permutations and splits into lists.  Each engine
+// run yields c06.result / c06.dnsbasic lines (rules = what MatchAll returned, and = all matching rules of the lists
+// by a linear scan; answer = the engine's verdict) and the permutations must agree (assert).  Every fifth scenario
+// contains two DIFFERENT rules whose full texts collide under the 32-bit hash (m2CollScenario): tables that key
+// anything by a hash of the text lose or confuse one of them, depending on the order.
+func genC06Engine(r *rng, n int, w *bufio.Writer) {
+	for i := 0; i < n; i++ {
+		web := r.chance(1, 2)
+		if r.chance(1, 5) {
+			if sc, ok := m2CollScenario(r, web); ok {
+				c06RunScenario(r, w, sc, 2+r.n(2), false)
+
+				continue
+			}
+		}
+		c06RunScenario(r, w, c06StdScenario(r, web), 1+r.n(3), false)
 	}
 }
+
 
 // genC06Pairs: all singletons and all pairs -- (rule, source rule) for web,
 // (rule, rule) for DNS -- of the pools (seed-independent).  With n below the
